@@ -1027,11 +1027,54 @@ def sch_taskdone(ctx: Ctx) -> RuleResult:
     return r
 
 
+def sch_bidict(ctx: Ctx) -> RuleResult:
+    """The future <-> node id map used to identify a finished future keeps its inverse consistent."""
+    r = RuleResult("SCH-BIDICT")
+    m = model(ctx)
+    # helpers identify the finished node through <map>.inverse[future]
+    uses = 0
+    for h in m.helpers.values():
+        for n in iter_own_nodes(h.fn.node):
+            if isinstance(n, ast.Subscript) and isinstance(n.value, ast.Attribute) and n.value.attr == "inverse":
+                uses += 1
+    if uses == 0:
+        raise Undecided("the wait helpers do not identify finished futures through an inverse map (form not modelled)")
+    c = ctx.P.classes.get(ctx.cls_q("BiDict"))
+    si = c.methods.get("__setitem__")
+    r.require(si is not None, "BiDict.__setitem__ not found")
+    k, v = si.node.args.args[1].arg, si.node.args.args[2].arg
+    inv = [n for n in iter_own_nodes(si.node) if isinstance(n, ast.Assign) and norm_src(n.targets[0]) == f"self.inverse[{v}]"]
+    ok = len(inv) == 1 and dotted(inv[0].value) == k
+    r.ob(ok, {"BiDict.__setitem__ records": norm_src(inv[0]) if inv else None})
+    if not ok:
+        r.violate("BiDict.__setitem__: the inverse map is not updated with value -> key", si.loc(),
+                  "the scheduler looks a finished future up in the inverse map to find the node to remove from the graph: a wrong or "
+                  "missing entry removes another node (its dependents start early) or raises", norm_src(inv[0]) if inv else None)
+    fwd = any(isinstance(n, ast.Call) and norm_src(n.func) == "super().__setitem__" and [dotted(a) for a in n.args] == [k, v]
+              for n in iter_own_nodes(si.node))
+    r.ob(fwd, {"forward map written": fwd})
+    if not fwd:
+        r.violate("BiDict.__setitem__: the forward map is not written with key -> value", si.loc(), "", None)
+    # every pooled dispatch registers its future under the selected node's id
+    for p in m.paths():
+        if not p.feasible:
+            continue
+        for i, e in enumerate(p.events):
+            if e.kind == "DISPATCH" and e.data["kind"] in POOLED:
+                fv = e.data["info"].get("future_var")
+                reg = [x for x in p.events[i + 1:] if x.kind == "ITEM_WRITE" and x.data["selected"] and x.data["value"] == fv]
+                r.ob(len(reg) == 1, {"future registered under the selected id": len(reg) == 1, "dispatch": e.data["kind"]})
+                if len(reg) != 1:
+                    r.violate(f"{m.fn.short}: future of dispatch({e.data['kind']}) is not registered under the selected node's id",
+                              _where(m, e.node), "the finished future cannot be mapped back to its node", p.describe())
+    return r
+
+
 RULES = {
     "SCH-ORIGIN": sch_origin, "SCH-RSET": sch_rset, "SCH-ROOTS": sch_roots, "SCH-DONE": sch_done, "SCH-ONCE": sch_once,
     "SCH-PRUNE": sch_prune, "SCH-BOUND": sch_bound, "SCH-COUNT": sch_count, "SCH-ARMS": sch_arms,
     "SCH-SEQ-PRE": sch_seq_pre, "SCH-SEQ-POST": sch_seq_post, "SCH-PRIO": sch_prio, "SCH-FRESHPICK": sch_freshpick,
     "SCH-WAITSITES": sch_waitsites, "SCH-WAITMODE": sch_waitmode, "SCH-GUARD": sch_guard, "SCH-MIXWAIT": sch_mixwait,
     "SCH-PROGRESS": sch_progress, "SCH-EXIT": sch_exit, "SCH-EMPTYWAIT": sch_emptywait, "SCH-DEACT": sch_deact,
-    "SCH-ACTIVE": sch_active, "SCH-POOLSIZE": sch_poolsize, "SCH-TASKDONE": sch_taskdone,
+    "SCH-ACTIVE": sch_active, "SCH-POOLSIZE": sch_poolsize, "SCH-TASKDONE": sch_taskdone, "SCH-BIDICT": sch_bidict,
 }
